@@ -67,7 +67,7 @@ def case_strategy():
     grv = st.tuples(seeds, st.lists(st.sampled_from(letters + ["e", "i"]), max_size=10, unique=True), st.booleans(), st.integers(0, 100)).map(
         lambda t: {"gen": "get_rand_vars", "seed": t[0], "pretty": True, "kwargs": {"exclude_vars": t[1], "common_variables": t[2]}, "n_frac": t[3]}
     )
-    split = st.tuples(seeds, st.integers(0, 1000)).map(lambda t: {"gen": "split_in_two_random", "seed": t[0], "pretty": True, "kwargs": {"value": t[1]}})
+    split = st.tuples(seeds, st.one_of(st.integers(0, 1000), st.integers(0, 10**30), st.sampled_from([10**15 + 1, 10**18 + 1, 2**53 + 1]))).map(lambda t: {"gen": "split_in_two_random", "seed": t[0], "pretty": True, "kwargs": {"value": t[1]}})
     return st.one_of(binom("gen_binomial_times_binomial", 4), binom("gen_binomial_times_monomial", 3), simplify, simplify, combine_default, combine, hay, hay_default, b1, b2, grv, split)
 
 
